@@ -519,3 +519,17 @@ Proof.
   unfold bump_i. cbn [ts_k k_i]. rewrite Fi1. replace (S (k_i (ts_k st)) - 1)%nat with (k_i (ts_k st)) by lia.
   reflexivity.
 Qed.
+
+(* the state a simulation starts from: rear = front - length, front at or beyond one train length *)
+Theorem ts_new_rear (length ms mr mf t0 : R) offset0 v0 :
+  let st := ts_new length ms mr mf t0 offset0 v0 in
+  k_offset_back (ts_k st) = k_offset (ts_k st) - p_length (ts_p st) /\
+  length <= k_offset (ts_k st) /\ (forall o, offset0 = Some o -> o <= k_offset (ts_k st)) /\
+  k_total_dist (ts_k st) = 0 /\ k_i (ts_k st) = 1%nat /\ 0 <= k_offset_back (ts_k st).
+Proof.
+  cbv zeta. unfold ts_new. cbn [ts_k ts_p k_offset k_offset_back p_length k_total_dist k_i]. numR.
+  destruct offset0 as [o|].
+  - pose proof (Rmax_l o length). pose proof (Rmax_r o length).
+    repeat split; try lra. intros o' E; inversion E; subst; lra.
+  - repeat split; try lra. intros o' E; discriminate.
+Qed.
